@@ -233,9 +233,14 @@ func (c *StratumConnection) Write(ctx context.Context, msg interfaces.MiningMess
 		}
 	}()
 
-	_, err = c.conn.Write(b)
+	n, err := c.conn.Write(b)
 
 	if err != nil {
+		if n > 0 {
+			// part of the line is already on the wire: nothing may follow it,
+			// otherwise the peer reads the fragment and the next message as one corrupt line
+			c.Close()
+		}
 		// if read was cancelled via context return context error, not deadline exceeded
 		if ctx.Err() != nil && errors.Is(err, os.ErrDeadlineExceeded) {
 			return ctx.Err()
